@@ -142,7 +142,7 @@ impl InputJsonExtensions for serde_json::Value {
             None => Ok(None),
             Some(v) => v.as_u64().map(|v| Some(EdgeId(v as usize))).ok_or_else(|| {
                 InputPluginError::QueryFieldHasInvalidType(
-                    InputField::OriginEdge,
+                    InputField::DestinationEdge,
                     String::from("u64"),
                 )
             }),
